@@ -201,6 +201,71 @@ def judge(res, job, only_ops=None):
     res.kernels[job.config] = res.kernels.get(job.config, 0) + len(tall)
 
 
+MIXED = [((200, "i64"), "unsigned", "u32"), ((256, "u64"), "int", "i32"), ((200, "i32"), "long", "i64"), ((129, "i8"), "short", "i16"), ((256, "u32"), "unsigned long", "u64"), ((192, "u64"), "signed char", "i8"),
+         ((300, "i64"), "int", "i32"), ((128, "u32"), "int", "i32")]
+
+
+def judge_mixed(res, job):
+    """wide_integer op built-in integer (both orders): the exact result reduced to the result type's storage width"""
+    kd = {r["id"]: r for r in job.records if r.get("t") == "kd" and "bbits" in r}
+    tall = {}
+    for line in job.raw:
+        p = line.split(" ")
+        if len(p) != 10 or p[0] != "M":
+            continue
+        k = kd.get(int(p[1]))
+        if not k:
+            continue
+        t = tall.setdefault(int(p[1]), {"judged": 0, "ood": 0, "nt": 0, "kinds": {}, "classes": {}, "samples": [], "viol": {}})
+        op, order, ah, bd, kind, rh, rbits, rsg = p[2], int(p[3]), p[4], int(p[5]), p[6], p[7], int(p[8]), int(p[9])
+        a = sval(int(ah, 16), k["bits"], bool(k["signed"]))
+        if abs(a) >> k["digits"] and not (k["signed"] and a == -(1 << k["digits"])):
+            t["ood"] += 1   # storage patterns above the declared digits are outside numeric_limits
+            continue
+        x, y = (a, bd) if order == 0 else (bd, a)
+        exact = x + y if op == "+" else x - y if op == "-" else x * y if op == "*" else tdiv(x, y) if op == "/" else x - tdiv(x, y) * y
+        t["judged"] += 1
+        t["kinds"][kind] = t["kinds"].get(kind, 0) + 1
+        want = "%0*x" % (rbits // 4, exact % (1 << rbits))
+        nt = a < 0 or bd < 0 or not (-(1 << (rbits - 1)) <= exact < (1 << (rbits - 1)))
+        if kind != "VALUE" or rh != want:
+            cls = ("event:" + kind + ":mixed:" + op) if kind != "VALUE" else "wrong:mixed:%s:%s_wide_%s_builtin%s" % (op, "signed" if k["signed"] else "unsigned", "signed" if k["bsigned"] else "unsigned", "" if order == 0 else ":builtin_first")
+            if kind == "VALUE" and not k["signed"] and k["bsigned"]:
+                # defect model (KF-C10-02): the built-in operand is first converted to the unsigned wide operand's own type, the operation is
+                # performed there (modulo 2^bits) and the result zero-extended into the (signed, wider) result type
+                N = k["bits"]
+                bw = bd % (1 << N)
+                xm, ym = (a, bw) if order == 0 else (bw, a)
+                try:
+                    m = xm + ym if op == "+" else xm - ym if op == "-" else xm * ym if op == "*" else xm // ym if op == "/" else xm % ym
+                    if rh == "%0*x" % (rbits // 4, (m % (1 << N)) % (1 << rbits)):
+                        cls += ":operand_converted_to_the_unsigned_wide_type"
+                except ZeroDivisionError:
+                    pass
+            n, ws = t["viol"].get(cls, (0, []))
+            if len(ws) < 4:
+                ws.append({"in": "%s %s %d (order %d) = %d" % (ah, op, bd, order, exact), "exp": want + " (%d-bit %s result)" % (rbits, "signed" if rsg else "unsigned"), "obs": kind + " " + rh})
+            t["viol"][cls] = (n + 1, ws)
+        elif nt:
+            t["nt"] += 1
+    for kid, t in tall.items():
+        res.add_tally(job, kd[kid]["k"], t["judged"], t["ood"], t["nt"], t["kinds"], t["classes"], t["samples"], t["viol"])
+    res.kernels[job.config] = res.kernels.get(job.config, 0) + len(tall)
+
+
+def mixed_jobs(tier, seed, only=None):
+    specs = [("wide<%d,%s> with %s" % (d, n, bn), 'c10::wide_mixed<cnl::wide_integer<%d,%s>, %s>' % (d, NARROW[n], bc)) for (d, n), bc, bn in MIXED]
+    if only:
+        specs = [s for s in specs if s[0] == only["kernel"]]
+    jobs = []
+    for cfg in ([only["config"]] if only else ["g-san"] if tier == "quick" else ["g-san", "c-san"]):
+        for i, (d, c) in enumerate(specs):
+            j = core.Job("c10m-%d" % i, core.tu("c10.h", [(d, '%s("%s", %d);' % (c, d, i))]), cfg, env={"VERIF_SEED": str(seed)}, extra_flags=["-DCNL_USE_IOSTREAMS=1"], timeout=3600)
+            j.keep_raw = True
+            jobs.append(j)
+    return jobs
+
+
 def make_jobs(tier, seed, only=None, prefix="c10"):
     ks = kernels(tier, seed)
     if only:
@@ -222,7 +287,13 @@ def run(tier, seed, only=None):
     res = core.Result("C10", tier, seed)
     jobs, ks = make_jobs(tier, seed, only)
     bigjobs = big.make_jobs("c10", BIG if tier == "thorough" or only else BIG[:BIGQ], tier, seed, ["g-san"] if tier == "quick" else ["g-san", "c-san"], only, wrap=True)
-    core.build_and_run(jobs + bigjobs, "C10")
+    mjobs = mixed_jobs(tier, seed, only)
+    core.build_and_run(jobs + bigjobs + mjobs, "C10")
+    for j in mjobs:
+        res.absorb(j)
+        judge_mixed(res, j)
+        if j.died:
+            res.inconclusive.append("binary %s[%s] died outside a guarded case (rc=%s)" % (j.name, j.config, j.rc))
     for j in bigjobs:
         res.absorb(j)
         j.post(res, j)
